@@ -257,3 +257,90 @@ func TestC09OctetFinding(t *testing.T) {
 }
 
 var _ = http.MethodGet
+
+const sigCandidateNilRace = "upgrade-candidate-variable-reset-while-its-reader-handles-a-packet"
+
+// runCandRace: a probed upgrade candidate sends a packet that ends the attempt
+// (anything but a probe; here the upgrade packet or a message) at the very
+// moment the session closes. Both paths run the attempt's cleanup and close
+// the candidate; they used to share, and one of them reset, the variable that
+// holds it.
+func runCandRace(cause int, pkt int) string {
+	o := config.DefaultServerOptions()
+	o.SetTransports(types.NewSet("polling", "websocket"))
+	w := NewWorld(o)
+	defer w.Teardown()
+	pc := &PollClient{W: w, O: ClientOpts{Rev: 4}}
+	pc.StartHandshake()
+	Settle()
+	if err := pc.FinishHandshake(); err != nil {
+		return "harness: " + err.Error()
+	}
+	sr := w.Get(pc.Sid)
+	cand := &WSClient{W: w, O: ClientOpts{Rev: 4}, Sid: pc.Sid}
+	cand.Start()
+	Settle()
+	cand.Pump()
+	cand.SendPacket(ctlD(tPing, "probe"), nil)
+	Settle()
+	pc.StartPoll()
+	Settle()
+	done := make(chan struct{}, 2)
+	go func() {
+		if pkt == 0 {
+			cand.SendPacket(ctl(tUpgrade), nil)
+		} else {
+			cand.SendPacket(msgT("x"), nil)
+		}
+		done <- struct{}{}
+	}()
+	go func() {
+		switch cause {
+		case 0:
+			sr.Sock.Close(true)
+		case 1:
+			pc.StartPost([]Pkt{ctl(tClose)}, false)
+		default:
+			pc.StartPost([]Pkt{ctl(tPing)}, false)
+		}
+		done <- struct{}{}
+	}()
+	<-done
+	<-done
+	Settle()
+	if len(sr.Closes) == 0 {
+		// (the upgrade packet won the race against a client-side cause sent on the old transport: the session lives on)
+		sr.Sock.Close(true)
+		Settle()
+	}
+	if len(sr.Closes) != 1 {
+		return fmt.Sprintf("close events %v", sr.Closes)
+	}
+	cand.Drop()
+	Settle()
+	return ""
+}
+
+// TestC09CandidateRaceFinding: demonstration of the repaired crash. The
+// interleaving is not owned by the harness: the history is repeated on all
+// cores; on a tree with the defect one of the repetitions kills the test
+// process with a nil dereference in /repo (the driver attributes it).
+func TestC09CandidateRaceFinding(t *testing.T) {
+	col := NewCollector("TestC09CandidateRaceFinding", "repetition (4000x, all cores): polling session with a probed websocket candidate; at one instant, from two goroutines, the candidate sends its upgrade packet or a message and the session closes (Close(true), client close packet, wrong-direction heartbeat); oracle: the process survives, exactly one close event. every case is non-trivial").Use(t)
+	bad := ""
+	n := 0
+	for i := 0; i < 4000 && bad == ""; i++ {
+		journal("C09race cause=%d pkt=%d (repetition %d)", i%3, (i/3)%2, i)
+		var f string
+		res := bubble(t, func() { f = runCandRace(i%3, (i/3)%2) })
+		res.rethrow()
+		n++
+		if f != "" {
+			bad = f
+		} else if res.Leak != "" {
+			bad = clipStr(res.Leak, 300)
+		}
+	}
+	col.Case("candidate packet racing with session close", true, map[string]any{"repetitions": n, "result": clipStr(bad, 300)}, "candidate-race")
+	demoFinding(t, col, "C09", sigCandidateNilRace, bad != "", clipStr(bad, 400))
+}
